@@ -547,3 +547,16 @@ func DominatedBySet(set []ssa.Instruction, target ssa.Instruction) bool {
 	}
 	return !reach(fn.Blocks[0])
 }
+
+// SameObject reports whether a and b denote the same value: the same SSA
+// value, or two loads of the same field of the same object.
+func SameObject(a, b ssa.Value) bool {
+	if SameValue(a, b) {
+		return true
+	}
+	ra, rb := ResolveAll(a), ResolveAll(b)
+	if len(ra) == 1 && len(rb) == 1 {
+		return sameLoadedField(ra[0], rb[0])
+	}
+	return false
+}
